@@ -192,6 +192,19 @@ Theorem C16_attachments_independent :
 Proof. exact iterate_concat. Qed.
 Print Assumptions C16_attachments_independent.
 
+(* attachment i contributes exactly what it contributes on its own, whatever attachments j <> i stand before and
+   after it in the message (no state carried from one attachment to the next, e.g. no per-MIME-type cache) *)
+Theorem C16_attachment_contribution_context_free :
+  forall (T : C07.Model.tables) (lower : str -> str) (mime : str -> option str) (R : Type)
+         (run : C07.Model.extractor -> str -> str -> list R * fin) (l1 : list attachment) (a : attachment) (l2 : list attachment),
+    forallb (quiet T lower mime R run) (l1 ++ a :: l2) = true ->
+    fst (iterate_supported_attachments T lower mime R run (l1 ++ a :: l2)) =
+      fst (iterate_supported_attachments T lower mime R run l1) ++ contribution T lower mime R run a
+      ++ fst (iterate_supported_attachments T lower mime R run l2)
+    /\ fst (iterate_supported_attachments T lower mime R run [a]) = contribution T lower mime R run a.
+Proof. exact contribution_context_free. Qed.
+Print Assumptions C16_attachment_contribution_context_free.
+
 (* the code before fixes/C16-attachment-by-name.patch dropped every attachment whose MIME type is not in the table,
    whatever its name (finding attachment-supported-name-unlisted-mime) *)
 Theorem C16_attachment_unrepaired_gate_refuted :
